@@ -102,9 +102,29 @@ NEEDS = {
  "C18-e": ("state dicts of an unfitted spec deep-copied only when non-empty", "one unfitted ModelSpec object used for builds on two data sets"),
  "C19-e": ("nested get_with_layer_name uses `value is not default` as the found test", "None (or the default object) stored in a nested LayeredMapping layer, read through get_with_layer_name / get_layer_name_for_key"),
  "C20-e": ("a term whose remaining factors are all literals is replaced by 1", "literal-scaled term whose every variable is consumed by wrt ('2:a' wrt a)"),
+ "C01-f": ("merge_operator_tokens folds pooled symbols into the (shared) token in place", "two or more '0' literals in one formula with an odd run of '-' before a non-last one: 'a - 0 + 0'"),
+ "C02-f": ("metadata-key guard in _flatten_encoded_evaled_factor matches any label starting with '_'", "a categorical level (or mapping key) whose label starts with a single underscore"),
+ "C03-f": ("spanned-term bookkeeping restarted for every cluster of terms", "cluster_by='numerical_factors' + terms with overlapping spans in different clusters (x:y + y:x:A)"),
+ "C04-f": ("per-column nested transform state written under str(key)", "stateful transform over an integer-labelled multi-column input (scale(bs(x, df=4))), replayed on other rows"),
+ "C05-f": ("sparse early return placed before the forward/backward sign flip of contr.diff", "C(f, contr.diff(backward=False)) + output='sparse' + reduced rank"),
+ "C06-f": ("bare column lookups kept in the materializer's factor cache across builds", "one materializer object used for two builds, the later one using a bare column with nulls seen before"),
+ "C07-f": ("factors evaluated part by part against each part's own transform state", "the same stateful factor in two parts; the later part's spec replayed alone on other data"),
+ "C08-f": ("mapping input converted column-wise with numpy.asarray", "dict input holding a Categorical / category Series (declared order) or a numeric list with None"),
+ "C09-f": ("encoder-state cache only filled by the default encoders, read with .get()", "C(...) factor at the same rank in two parts; the later part's spec reused alone"),
+ "C10-f": ("variable_indices accumulates with += onto the lists cached in term_indices", "a variable used in >= 2 terms; any metadata read after variable_indices"),
+ "C11-f": ("closed-form treatment coefficient matrix leaves rows in level order", "coefficient matrix of treatment/SAS coding whose reference level is not the first"),
+ "C12-f": ("null mask of bs() taken before the 'na' extrapolation nullifies out-of-range values", "bs(..., extrapolation='na') + out-of-range value + degree 0 (or a knot of multiplicity >= degree+2)"),
+ "C13-f": ("poly overwrites the recorded norms2[0] with the current row count on every call", "non-raw poly of degree >= 2 replayed on a vector of another length"),
+ "C14-f": ("exc_for_token called without the `or Token()` fallback", "scaling conflict reported on a parser-generated factor ('.' expansion, multistage *_hat): '2:a + .'"),
+ "C15-f": ("tokenizer whitespace class compiled with re.ASCII", "non-ASCII white space (NBSP, ideographic space, ...) at a token boundary"),
+ "C16-f": ("list specification turned into dict.fromkeys(spec, 0)", "list of constraint strings with an entry repeated verbatim"),
+ "C17-f": ("required_variables cached on the formula, invalidated in _reorder() only", "formula edited in place by deletion (del / pop / remove) after required_variables was read"),
+ "C18-f": ("alias-restoring regex narrowed to identifiers starting with [a-z_]", "capitalised or non-ASCII quoted column inside a stateful transform + colliding alias"),
+ "C19-f": ("LayeredMapping.__getitem__ reads each layer with try/except KeyError", "a supplied layer that defines __missing__ (defaultdict, Counter)"),
+ "C20-f": ("the 'nothing left -> 1' fallback applied inside the loop over variables", ">= 2 variables and a term exhausted before the last one ('a' wrt (a, b))"),
 }
 res = {}
-for f in ["seeded/selftest_round_a.json", "seeded/selftest_round_b_before_strengthening.json", "seeded/selftest_round_c_before_strengthening.json", "seeded/selftest_round_d_before_strengthening.json", "seeded/selftest_round_e_before_strengthening.json"]:
+for f in ["seeded/selftest_round_a.json", "seeded/selftest_round_b_before_strengthening.json", "seeded/selftest_round_c_before_strengthening.json", "seeded/selftest_round_d_before_strengthening.json", "seeded/selftest_round_e_before_strengthening.json", "seeded/selftest_round_f_before_strengthening.json"]:
     if os.path.exists(f):
         for k, v in json.load(open(f))["seeds"].items():
             res.setdefault(k, {})["first"] = v
